@@ -168,6 +168,10 @@ pub(crate) struct IoLoop {
     // loop starts (the socket is edge-triggered, so nothing would wake us up for them).
     frames_after_handshake: Vec<AMQPFrame>,
 
+    // Counts the steps a handshake has made (TLS: every wake-up; AMQP: every change of
+    // state). The connection timeout is pushed back by progress only, see run_io_loop.
+    handshake_progress: u64,
+
     // Bound for buffered outgoing writes. If we have more than this much data enqueued,
     // we will stop polling non-0 channels' requests for us to send more data.
     buffered_writes_high_water: usize,
@@ -192,6 +196,7 @@ impl IoLoop {
             frame_buffer: FrameBuffer::new(),
             inner: Inner::new(heartbeats, tuning.mem_channel_bound),
             frames_after_handshake: Vec::new(),
+            handshake_progress: 0,
             buffered_writes_high_water: tuning.buffered_writes_high_water,
             buffered_writes_low_water: tuning.buffered_writes_low_water,
             connection_timeout: None,
@@ -290,7 +295,8 @@ impl IoLoop {
         self.run_io_loop(
             &mut stream,
             &mut state,
-            |_, stream, state, _| {
+            |this, stream, state, _| {
+                this.handshake_progress += 1;
                 if state.is_none() {
                     *state = stream.progress_handshake()?;
                 }
@@ -404,6 +410,7 @@ impl IoLoop {
     ) -> Result<()> {
         match event.token() {
             STREAM => {
+                let step_before = std::mem::discriminant(&*state);
                 if event.readiness().is_writable() {
                     let result = self.inner.write_to_stream(stream);
                     // (see below: the peer may be gone once it has sent its Close)
@@ -452,6 +459,9 @@ impl IoLoop {
                         }
                     }
                     result?;
+                }
+                if std::mem::discriminant(&*state) != step_before {
+                    self.handshake_progress += 1;
                 }
             }
             HEARTBEAT => self.inner.process_heartbeat_timers()?,
@@ -676,14 +686,24 @@ impl IoLoop {
 
         let mut events = Events::with_capacity(128);
         let mut listening_to_channels = true;
-        // The connection timeout bounds this whole phase (the handshake): a peer that keeps
-        // the socket busy without ever getting anywhere - heartbeats but no OpenOk - must
-        // not keep us here for ever, and neither must our own timers waking us up.
+        // The connection timeout bounds the wait for the peer's next step in a handshake: a
+        // peer that keeps the socket busy without ever getting anywhere - heartbeats but no
+        // OpenOk - must not keep us here for ever, and neither must our own timers waking
+        // us up.
+        // It runs anew whenever the handshake makes a step, so a broker that is slow but
+        // keeps answering is not cut off; traffic that gets nowhere does not count.
         // (a timeout too large to be added to the clock is no deadline at all)
-        let deadline = self
+        let mut deadline = self
             .connection_timeout
             .and_then(|timeout| Instant::now().checked_add(timeout));
+        let mut progress_seen = self.handshake_progress;
         loop {
+            if self.handshake_progress != progress_seen {
+                progress_seen = self.handshake_progress;
+                deadline = self
+                    .connection_timeout
+                    .and_then(|timeout| Instant::now().checked_add(timeout));
+            }
             let poll_timeout = match deadline {
                 Some(deadline) => match deadline.checked_duration_since(Instant::now()) {
                     Some(left) if left > Duration::from_millis(0) => Some(left),
